@@ -227,14 +227,23 @@ class DelimSource(Source[Iterable[str]]):
         delim       = self._delim
 
         if split_lines:
+            pending = ''
             for text in filter(None,self._source.read()):
+                text  = pending + text
                 lines = text.splitlines()
-                if pending:
-                    lines[0] = pending + lines[0]
-                    pending = None
-                if text[-1] not in '\r\n':
+                if text[-1] == '\r':
+                    #this could be the first half of a '\r\n' so we hold the line back with its '\r'
+                    pending = lines.pop() + '\r'
+                elif text[-1].splitlines() == ['']:
+                    #the text ends with one of the line boundaries that splitlines recognizes
+                    pending = ''
+                else:
                     pending = lines.pop()
                 yield from lines
+            if pending.endswith('\r'):
+                pending = pending[:-1] #the '\r' we held back was a line boundary after all
+            elif not pending:
+                pending = None
         else:
             for text in filter(None,self._source.read()):
                 lines = text.split(delim)
